@@ -16,6 +16,59 @@ from harness import common as C
 from harness import leanio
 
 PROPERTY = "C06"
+BEHAVIOR_INPUT_CODE = r"""
+import sys, json
+sys.path.insert(0, %r); sys.path.insert(0, %r)
+import numpy, awkward as ak, vector
+out, n = [], 0
+def desc(v):
+    return [type(v).__name__, v.layout.purelist_parameter("__record__"), ak.fields(v), ak.to_list(v)]
+cases = [([{"x": 1.0, "y": 2.0}, {"x": 3.0, "y": 4.0}], "Vector2D"), ([{"px": 1.0, "py": 2.0, "pz": 3.0, "charge": 1}], "Momentum3D"),
+         ([[{"pt": 1.0, "phi": 2.0, "eta": 0.5, "mass": 4.0}], []], "Momentum4D"), ([{"rho": 1.0, "phi": 2.0, "theta": 0.5, "tau": 4.0, "q": 2}], "Vector4D")]
+for data, rname in cases:
+    plain = ak.Array(data)
+    want = desc(vector.Array(plain))
+    for bname, beh in (("private mapping", {"my-private-key": 1}), ("empty mapping", {}), ("mapping with a Vector override", {("*", "MyRecord"): ak.Record})):
+        a = ak.Array(data, behavior=beh)
+        forms = {"vector.Array(array)": lambda: vector.Array(a), "vector.awk(array)": lambda: vector.awk(a), "vector.zip(fields of array)": lambda: vector.zip({f: a[f] for f in ak.fields(a)}),
+                 "vector.Array(list, behavior=)": lambda: vector.Array(data, behavior=beh)}
+        for fname, f_ in forms.items():
+            n += 1
+            try:
+                got = desc(f_())
+            except Exception as e:
+                out.append(["behavior-input-raises:" + fname, "%%s on a %%s input carrying its own behavior (%%s) raises %%s: %%s (without a behavior it gives %%s)" %% (fname, rname, bname, type(e).__name__, str(e)[:80], want[:3])])
+                continue
+            if got[1:] != want[1:] or not isinstance(f_(), vector.backends.awkward.VectorAwkward):
+                out.append(["behavior-input:" + fname, "%%s on a %%s input carrying its own behavior (%%s) gives %%s; without a behavior %%s" %% (fname, rname, bname, got, want)])
+            else:
+                try:
+                    r = f_()
+                    ok = abs(float(ak.flatten(r.rho if hasattr(r, "rho") else r.pt, axis=None)[0])) >= 0
+                except Exception as e:
+                    out.append(["behavior-input-method:" + fname, "%%s on a %%s input carrying its own behavior (%%s): reading rho raises %%s" %% (fname, rname, bname, type(e).__name__)])
+print("JSON" + json.dumps([out, n]))
+"""
+BEHAVIOR_INPUT_REPLAY = ("import sys; sys.path.insert(0, %r); sys.path.insert(0, %r)\nfrom harness import c06\nbad, n = c06.behavior_input_probe()\nassert not bad, bad[0][1]\n"
+                         % (C.VERIF, C.VERIF + "/tools"))
+
+
+def behavior_input_probe():
+    import json
+    import subprocess
+    import sys
+    p = subprocess.run([sys.executable, "-c", BEHAVIOR_INPUT_CODE % (C.VERIF, C.VERIF + "/tools")], capture_output=True, text=True, timeout=600)
+    line = [l for l in p.stdout.splitlines() if l.startswith("JSON")]
+    if not line:
+        raise RuntimeError("behavior input probe failed: " + p.stderr[-400:])
+    out, n = json.loads(line[0][4:])
+    seen, res = set(), []
+    for k, d in out:
+        if k not in seen:
+            seen.add(k)
+            res.append((k, d))
+    return res, n
+
 LEAN_TARGETS = ["VectorModel.Props.C06"]
 THEOREM_FILES = ["VectorModel/Props/C06.lean"]
 NEEDS_TRANSLATOR = False
@@ -220,6 +273,13 @@ def correspondence(ctx):
                     dis.append(f"{bname} on {layout} records {names}+{extra} with missing single fields: {why}"[:400])
                     fails.append({"key": f"missing-values:{bname}", "what": dis[-1], "code": None})
     kinds += n_missing
+    # Awkward constructors on inputs that CARRY THEIR OWN behavior mapping, in a fresh interpreter without register_awkward(): same class,
+    # record name, fields and values as the same input without a behavior
+    bbad, bn = behavior_input_probe()
+    kinds += bn
+    for k_, d_ in bbad[:3]:
+        dis.append(d_[:400])
+        fails.append({"key": k_, "what": d_[:400], "code": BEHAVIOR_INPUT_REPLAY})
     # the INPUT FORMS of vector.array agree with each other: dict of columns (arrays or lists), records + dtype= keyword, records + dtype
     # as the second positional argument (numpy.array's signature), and the VectorNumpy/MomentumNumpy classes called directly
     n_forms = 0
